@@ -31,6 +31,21 @@ Definition judge (t : tree) : option (list Z) :=
       else Some [2; 2]
     | _ => Some [2; 3]
     end
+  | L [L [_; _; L [A 7; _; A members]]; o] =>
+    (* `members` zero-sized members: rejected exactly when there are none, otherwise num_choices = members *)
+    Some [match o with
+          | L [A (-7)] => if members =? 0 then 0 else 2
+          | L [A nc; _] => if (0 <? members) && (nc =? members) then 0 else 2
+          | _ => 2 end]
+  | L [L [_; _; L [A 8; A n; A m]]; o] =>
+    if (n <=? 0) || (m <=? 0) then None else
+    match o with
+    | L [A nc; _] =>
+      if nc =? n
+      then Some (4 :: 0 :: enc_law (map (fun r => (Z.of_nat r, Qmake ((n + m - 1 - Z.of_nat r) / m) (Z.to_pos n))) (seq 0 (Z.to_nat m))))
+      else Some [2; 2]
+    | _ => Some [2; 3]
+    end
   | L [L [_; _; L (A k :: A size :: _)]; L entries] =>
     (* every draw produced exactly `size` elements, all from the element generator *)
     Some [if forallb (fun e => match e with L [A len; A 1; _] => len =? size | _ => false end) entries
